@@ -241,12 +241,18 @@ func checkC07(c *Ctx, r *Report) {
 			if _, ops, ok := sprintfOperands(callArgs(call)[2]); ok && len(ops) == 1 && ops[0] == length {
 				okCL = true
 			}
+			if _, ops, ok := fmtShape(callArgs(call)[2]); ok && len(ops) == 1 && unconvNum(ops[0]) == unconvNum(length) {
+				okCL = true
+			}
 		}
 		r.Check(okCL, "C07.R2", "Content-Length is formatted from the section length", c.Pos(f.Pos()), "same SSA value as the section reader's length", "Content-Length of the 206 is not formatted from the very length given to the section reader")
 		okCR := false
 		for _, call := range sh["Content-Range"] {
 			format, ops, ok := sprintfOperands(callArgs(call)[2])
-			if ok && len(ops) == 3 && ops[0] == start && ops[1] == end && pathOf(ops[2]) == sizePath && strings.Contains(format, "%d-%d/%d") && strings.HasPrefix(format, "bytes ") {
+			if !ok || format == "" {
+				format, ops, ok = fmtShape(callArgs(call)[2]) // built by concatenation with strconv conversions
+			}
+			if ok && len(ops) == 3 && unconvNum(ops[0]) == unconvNum(start) && unconvNum(ops[1]) == unconvNum(end) && pathOf(ops[2]) == sizePath && strings.Contains(format, "%d-%d/%d") && strings.HasPrefix(format, "bytes ") {
 				okCR = true
 			}
 		}
@@ -258,10 +264,10 @@ func checkC07(c *Ctx, r *Report) {
 			if !ok || calleeName(call) != proxyPkg+".finalizeAndRespond" {
 				return
 			}
-			if k, isC := constInt(call.Call.Args[2]); isC && k == 206 {
+			if k, isC := constInt(argOf(call, "status", 2)); isC && k == 206 {
 				n206++
 				okDom := errv != nil && onlyWhenNil(f, call, errv, true)
-				body := unconv(call.Call.Args[1])
+				body := unconv(argOf(call, "resp", 1))
 				r.Check(okDom && body == ssa.Value(nsr), "C07.R3", "206 only after SliceSize succeeded, body is the section", c.InstrPos(call), "dominated by err == nil of SliceSize; body is the section reader", "the 206 write is reachable with a SliceSize error, or its body is not the validated section")
 			}
 		})
@@ -280,6 +286,9 @@ func checkC07(c *Ctx, r *Report) {
 			okHdr := false
 			for _, h := range sh["Content-Range"] {
 				format, ops, ok := sprintfOperands(callArgs(h)[2])
+				if !ok || format == "" {
+					format, ops, ok = fmtShape(callArgs(h)[2])
+				}
 				if ok && strings.HasPrefix(format, "bytes */%d") && len(ops) == 1 && pathOf(ops[0]) == sizePath && instrDominates(h, call) {
 					okHdr = true
 				}
@@ -554,8 +563,8 @@ func checkC07(c *Ctx, r *Report) {
 				return
 			}
 			n++
-			st := call.Call.Args[2]
-			_, bp := fieldPath(unconv(call.Call.Args[1]))
+			st := argOf(call, "status", 2)
+			_, bp := fieldPath(unconv(argOf(call, "resp", 1)))
 			cachedBody := len(bp) > 0 && bp[0] == "Cached"
 			key := fmt.Sprintf("processRequest: finalizeAndRespond #%d", n)
 			if cachedBody {
